@@ -30,7 +30,8 @@ struct Prob {
     x: Vec<Vec<f64>>,
     k: Vec<Vec<f64>>,
     linear: bool,
-    /// tag `weighted_sum` evaluates: 0 linear, 1 a tag unrelated to `k`, 2 `Polynomial(1, 2)`
+    /// tag `weighted_sum` evaluates: 0 linear, 1 a tag unrelated to `k`, 2 `Polynomial(1, 2)`,
+    /// 3 `Polynomial(1, 1)` (degree 1 with a constant: not `is_linear`, rows are stored)
     meth: u8,
     /// 0 `PermutableKernel`, 1 `PermutableKernelOneClass`, 2 `PermutableKernelRegression`
     km: u8,
@@ -43,6 +44,8 @@ struct Prob {
     eps: f64,
     q: Vec<Vec<f64>>,
     tiny_bounds: bool,
+    /// bounds that are not dyadic (0.1, 0.3, ...): sums and differences of bounds round
+    inexact_bounds: bool,
 }
 
 impl Prob {
@@ -71,6 +74,8 @@ impl Prob {
     fn bounds_class(&self) -> &'static str {
         if self.tiny_bounds {
             "tiny"
+        } else if self.inexact_bounds {
+            "inexact"
         } else if self.b.iter().all(|v| *v == self.b[0]) {
             "equal"
         } else {
@@ -149,11 +154,12 @@ fn gen_prob(rng: &mut Rng, nmax: usize, psd_only: bool, for_solve: bool) -> Prob
         let b = rng.below(m);
         x[a] = x[b].clone();
     }
-    let kind = if psd_only { rng.below(2) } else { rng.below(3) };
+    let kind = if psd_only { *rng.pick(&[0usize, 1, 3]) } else { rng.below(4) };
     let dot = |a: &Vec<f64>, b: &Vec<f64>| a.iter().zip(b.iter()).map(|(u, v)| u * v).sum::<f64>();
     let (k, linear, meth): (Vec<Vec<f64>>, bool, u8) = match kind {
         0 => ((0..m).map(|i| (0..m).map(|j| dot(&x[i], &x[j])).collect()).collect(), true, 0),
         1 => ((0..m).map(|i| (0..m).map(|j| (dot(&x[i], &x[j]) + 1.0) * (dot(&x[i], &x[j]) + 1.0)).collect()).collect(), false, 2),
+        3 => ((0..m).map(|i| (0..m).map(|j| dot(&x[i], &x[j]) + 1.0).collect()).collect(), false, 3),
         _ => {
             // arbitrary symmetric integer matrix (may be indefinite: exercises the 1e-10 guard)
             let mut mm = vec![vec![0.0; m]; m];
@@ -185,7 +191,13 @@ fn gen_prob(rng: &mut Rng, nmax: usize, psd_only: bool, for_solve: bool) -> Prob
     // bounds around the support-vector threshold 100 eps (solve only): coefficients that sit at
     // such a bound are the ones on which the three `100 eps` filters of the code must agree
     let tiny_bounds = for_solve && !nu && rng.chance(1, 5);
-    let b: Vec<f64> = if tiny_bounds {
+    // scripted steps only: per-sample bounds that are not dyadic, cast to the float type of the run (the clipping
+    // code computes `bound_j + diff`, `bound_i - diff`, `sum - bound_i`: with such bounds these round)
+    let inexact_bounds = !for_solve && rng.chance(1, 8);
+    let b: Vec<f64> = if inexact_bounds {
+        let ci = [0.1, 0.3, 0.7, 1.1, 2.3];
+        (0..n).map(|_| { let v = *rng.pick(&ci); if f32_ { (v as f32) as f64 } else { v } }).collect()
+    } else if tiny_bounds {
         let ts = [4.0 * fe, 16.0 * fe, 32.0 * fe, 64.0 * fe, 128.0 * fe, 256.0 * fe, 512.0 * fe, 2048.0 * fe, 1.0, 1.0, 2.0, 0.5];
         (0..n).map(|_| *rng.pick(&ts)).collect()
     } else if nu && rng.chance(2, 3) {
@@ -259,7 +271,7 @@ fn gen_prob(rng: &mut Rng, nmax: usize, psd_only: bool, for_solve: bool) -> Prob
     } else {
         vec![]
     };
-    Prob { n, x, k, linear, meth, km, nu, f32_, y, p, b, a0, eps, q, tiny_bounds }
+    Prob { n, x, k, linear, meth, km, nu, f32_, y, p, b, a0, eps, q, tiny_bounds, inexact_bounds }
 }
 
 fn stepper<'a, F: linfa::Float>(pr: &Prob, ds: &'a Array2<F>, shrinking: bool) -> StepperG<'a, F> {
@@ -269,6 +281,7 @@ fn stepper<'a, F: linfa::Float>(pr: &Prob, ds: &'a Array2<F>, shrinking: bool) -
     let method = match pr.meth {
         0 => KernelMethod::Linear,
         2 => KernelMethod::Polynomial(F::one(), F::cast(2.0)),
+        3 => KernelMethod::Polynomial(F::one(), F::one()),
         _ => KernelMethod::Gaussian(F::one()),
     };
     let kind = match pr.km {
@@ -363,7 +376,15 @@ fn oracle_state(ctx: &mut Ctx, pr: &Prob, d: &Dump, class: &str, at: &str, after
     for k in 0..n {
         let a = d.alpha[k];
         let bb = pr.b[s[k]];
-        ctx.require(a >= 0.0 && a <= bb, "box", class, || format!("{}: alpha of sample {} = {} outside [0,{}]", at, s[k], a, bb));
+        // rounding allowance of the known finding: 8 ulp of the largest bound of the problem
+        let slack = 8.0 * pr.feps() * pr.b.iter().fold(0.0f64, |m, v| m.max(*v));
+        if pr.inexact_bounds && ((a > bb && a <= bb + slack) || (a < 0.0 && a >= -slack)) {
+            // the clipped value `bound_j + diff` / `sum - bound_j` / `bound_i - diff` of `update` rounded to a few ulps
+            // above the bound or below zero
+            ctx.fail("box_rounding", class, format!("{}: alpha of sample {} = {:e} leaves [0, {:e}] by {:e} (rounding of the clipped value; allowance {:e})", at, s[k], a, bb, if a < 0.0 { -a } else { a - bb }, slack));
+        } else {
+            ctx.require(a >= 0.0 && a <= bb, "box", class, || format!("{}: alpha of sample {} = {} outside [0,{}]", at, s[k], a, bb));
+        }
         ysum += pr.ysign(s[k]) * a;
         scale = scale.max(bb);
     }
@@ -616,6 +637,8 @@ fn run_solve<F: linfa::Float>(ctx: &mut Ctx, pr: &Prob, shrinking: bool, class: 
         let kv = |i: usize| -> f64 {
             if pr.meth == 0 {
                 dot(&pr.x[i])
+            } else if pr.meth == 3 {
+                dot(&pr.x[i]) + 1.0
             } else {
                 (dot(&pr.x[i]) + 1.0) * (dot(&pr.x[i]) + 1.0)
             }
